@@ -374,6 +374,7 @@ def _s3(program, res):
         res.fail_at("C16-S3", pj, "pandas-coalesce-direction", "the shared-column fix-up no longer fills nulls of the left column from the right twin")
     twin_cleanup_rule(program, res)
     polars_coalesce_rule(program, res)
+    coalesce_exemption_rule(program, res)
 
 
 def polars_coalesce_rule(program, res, rule="C16-S3"):
@@ -396,6 +397,40 @@ def polars_coalesce_rule(program, res, rule="C16-S3"):
         res.ok(rule, "Polars (right join simulated by swapped left join): original left value, else the right one")
     else:
         res.fail_at(rule, plj, "polars-coalesce-direction-right", f"`{t1[:110]}` does not prefer the original left value", whens[1])
+
+
+def coalesce_exemption_rule(program, res, rule="C16-S3"):
+    """which shared columns are *not* coalesced: only a key that carries the same name on both sides (one merged column).  A key named
+    differently on the other side does not exempt a shared non-key column that happens to have its name."""
+    def _pairwise(e) -> bool:
+        for c in ast.walk(e):
+            if isinstance(c, (ast.ListComp, ast.SetComp, ast.GeneratorExp)):
+                g_ = c.generators[0]
+                if isinstance(g_.iter, ast.Call) and dotted_name(g_.iter.func) == "zip" and isinstance(g_.target, ast.Tuple) and len(g_.target.elts) == 2:
+                    pair = {t.id for t in g_.target.elts if isinstance(t, ast.Name)}
+                    if any(isinstance(i, ast.Compare) and isinstance(i.ops[0], ast.Eq) and {x.id for x in [i.left, i.comparators[0]] if isinstance(x, ast.Name)} == pair for i in g_.ifs):
+                        return True
+        return False
+
+    pj = program.method("pandas_base", "PandasModelBase", "_natural_join_step", inherited=False)
+    pd_sets = [st for st in ast.walk(pj.node) if isinstance(st, ast.Assign) and _pairwise(st.value)]
+    if pd_sets:
+        res.ok(rule, "Pandas exempts only equal-named key pairs from the coalesce")
+    else:
+        res.fail_at(rule, pj, "pandas-coalesce-exemption", "Pandas _natural_join_step no longer derives the exempt columns from the equal-named key pairs")
+    plj = program.method("polars_model", "PolarsModel", "_natural_join_step", inherited=False)
+    res.analysed(plj)
+    cands = [st for st in ast.walk(plj.node) if isinstance(st, ast.Assign) and isinstance(st.targets[0], ast.Name) and isinstance(st.value, ast.BinOp)
+             and isinstance(st.value.op, ast.Sub) and "intersection" in unparse(st.value.left)]
+    if len(cands) < 2:
+        raise AnalysisError("Polars _natural_join_step: the two `shared columns minus keys` computations were not found")
+    for st in cands:
+        if _pairwise(st.value.right):
+            res.ok(rule, f"Polars: `{st.targets[0].id}` exempts only equal-named key pairs")
+        else:
+            res.fail_at(rule, plj, f"polars-coalesce-exempts-one-sided-keys:{unparse(st.value.right)[:30]}",
+                        f"`{unparse(st)[:120]}` exempts every column that is a key on one side: a.natural_join(b, on=[('k','j')], jointype='right') where a also has a "
+                        f"column j returns b's j (Polars 2,3 — Pandas and SQL 20,30: the left value)", st)
 
 
 def polars_join_guard_rule(program, res, rule="C16-S3"):
@@ -462,14 +497,36 @@ def _s3c(program, res):
 
 
 def polars_full_join_keys_rule(program, res, rule="C16-S4"):
+    """a Polars full join keeps the two key columns apart (the right one under the suffix) unless coalesce=True: right-only rows then have a
+    null in the left key.  The step has to ask for coalesce=True or put the equal-named keys into its own coalescing list for a full join."""
     plj = program.method("polars_model", "PolarsModel", "_natural_join_step", inherited=False)
-    t = unparse(plj.node)
-    if "coalesce=True" in t or "- set(op.on_a)" not in t:
-        res.ok(rule, "Polars: full join coalesces the key columns")
-    else:
-        res.fail_at(rule, plj, "polars-full-join-keys-not-coalesced",
-                    "Polars join(how='outer'/'full') keeps both key columns unless coalesce=True, and the coalescing step excludes the keys: "
-                    "for right-only rows of a full join the key column is null")
+    g = cfgmod.build(plj.node)
+    general = []
+    for c in ast.walk(plj.node):
+        if isinstance(c, ast.Call) and isinstance(c.func, ast.Attribute) and c.func.attr == "join":
+            how = next((kw.value for kw in c.keywords if kw.arg == "how"), None)
+            if how is not None and not (isinstance(how, ast.Constant) and how.value in ("left", "inner", "right", "semi", "anti", "cross")):
+                general.append(c)
+    if not general:
+        raise AnalysisError("Polars _natural_join_step: the join whose type is not a literal (the possible full join) was not found")
+    for c in general:
+        if any(kw.arg == "coalesce" and isinstance(kw.value, ast.Constant) and kw.value.value is True for kw in c.keywords):
+            res.ok(rule, "Polars: the possibly-full join asks for coalesce=True")
+            continue
+        # the exemption set used before this join: does it let equal-named keys through when the join is a full join?
+        node = g.containing_node(c)
+        ex = [st for st in ast.walk(plj.node) if isinstance(st, ast.Assign) and isinstance(st.targets[0], ast.Name) and isinstance(st.value, ast.BinOp)
+              and isinstance(st.value.op, ast.Sub) and "intersection" in unparse(st.value.left) and g.has_node(st)
+              and (g.dominates(g.node_of(st).id, node.id))]
+        how_name = unparse(next(kw.value for kw in c.keywords if kw.arg == "how"))
+        keyed_by_how = any(how_name in unparse(st.value) or any(how_name in unparse(b.cond) and ("outer" in unparse(b.cond) or "full" in unparse(b.cond))
+                                                                    for b, _l in g.lexical_guards(g.node_of(st))) for st in ex)
+        if keyed_by_how:
+            res.ok(rule, "Polars: for a full join the equal-named keys are coalesced by the step itself")
+        else:
+            res.fail_at(rule, plj, "polars-full-join-keys-not-coalesced",
+                        "Polars join(how='outer'/'full') keeps both key columns unless coalesce=True, and the coalescing step exempts the keys whatever the join type: "
+                        "for right-only rows of a full join the key column is null", c)
 
 
 def _s4(program, res):
@@ -483,7 +540,11 @@ def _s4(program, res):
     polars_full_join_keys_rule(program, res)
     fj = program.method("SQLite", "SQLiteModel", "_emit_full_join_as_complex", inherited=False)
     t = unparse(fj.node)
-    if "project({}, group_by=join_columns)" in t:
+    groups_keys = any(isinstance(c, ast.Call) and isinstance(c.func, ast.Attribute) and c.func.attr == "project" and any(kw.arg == "group_by" for kw in c.keywords)
+                      for c in ast.walk(fj.node))
+    if not groups_keys and "UNION" not in t.upper() and "anti" not in t.lower() and "concat_rows" not in t:
+        raise AnalysisError("SQLite _emit_full_join_as_complex: neither the key-grouping emulation nor a recognisable replacement (union / anti-join) found")
+    if groups_keys:
         res.fail_at("C16-S4", fj, "sqlite-full-join-null-keys",
                     "the SQLite FULL join emulation builds the key set with GROUP BY and re-attaches both sides with LEFT joins on the keys: "
                     "rows whose key is null collapse into one all-null row (null keys never match) instead of being kept")
